@@ -49,7 +49,7 @@ def main():
             if st == "DIFF":
                 print("op", info["op_index"], info["op"])
                 a, b = info["impl"] or [], info["model"] or []
-                for k in range(max(len(a), len(b))):
+                for k in range(min(40, max(len(a), len(b)))):
                     x = a[k] if k < len(a) else "-"
                     y = b[k] if k < len(b) else "-"
                     print(("   " if x == y else ">> ") + "%-45s | %s" % (x, y))
